@@ -57,7 +57,7 @@ type Case struct {
 	Units  []Unit        `json:"units"`
 }
 
-var tags = []string{"a", "b", "c", "user1", "x:y", "k"}
+var tags = []string{"a", "b", "c", "user1", "x:y", "k", "caf\u00e9", "\u7528\u6237:1001", "\x80\xfe", "\u00fc"}
 
 // classKey: a key that the cluster specification hashes as tag t.
 func classKey(t *rapid.T, tag string) []byte {
